@@ -57,6 +57,7 @@ FAMILIES = {
     "rules-var1": dict(n_axes=1, layout="onaxis", n_glyphs=11, composites=0.0, curves="lines", ext_glyph_names=M.RULE_GLYPHS, mapped=0.5, post=lambda m, r: M.add_rules(m, r)),
     "rules-var2": dict(n_axes=2, layout="onaxis", n_glyphs=11, composites=0.0, curves="lines", ext_glyph_names=M.RULE_GLYPHS, mapped=0.5, post=lambda m, r: M.add_rules(m, r)),
     "rules-var3": dict(n_axes=3, layout="onaxis", n_glyphs=11, composites=0.0, curves="lines", ext_glyph_names=M.RULE_GLYPHS, mapped=0.3, post=lambda m, r: M.add_rules(m, r)),
+    "c20-source-flags": dict(n_axes=0, n_glyphs=10, composites=0.6, nested=True, transforms="scale", post=lambda m, r: M.source_flags(m, r)),
     "marks-static": dict(n_axes=0, n_glyphs=8, composites=0.0, marks=dict(n_groups=2)),
     "marks-var1": dict(n_axes=1, layout="onaxis", n_glyphs=8, composites=0.0, marks=dict(n_groups=3, n_marks=4)),
     "marks-var2": dict(n_axes=2, layout="corners", n_glyphs=8, composites=0.0, marks=dict(n_groups=2, n_ligs=2, mkmk=0.9)),
@@ -76,6 +77,12 @@ BY_PROPERTY = {
     "C08": ["c08-1axis", "c08-2axis", "c08-3axis-int", "c08-1axis"],
     "C17": ["c17-special-static", "c17-special-var", "var2-nested-xform", "c17-special-static", "var1-vertical", "c06-partial-notdef-mid", "kern-static"],
     "C12": ["c12-nested-scale", "c12-nested-rotate", "c12-nonexport-sparse", "c12-mixed-static", "c12-overflow", "var2-nested-xform"],
+    # every kind of font the other checks produce, for the walker: layout tables from kerning / anchors / feature code /
+    # rules, names from feature code, nested and transformed composites, sparse and diagonal masters, cubic outlines
+    "C05": ["var2-nested-xform", "names-var1-collide", "kern-many", "marks-var2", "rules-var2", "var2-mixed-sparse", "names-var1", "var3-diagonal",
+            "c12-nonexport-sparse", "marks-propagate", "var1-cubic", "static-noorder", "kern-divergent", "names-static", "c17-special-var",
+            "marks-intermediate", "rules-var1", "var1-mixedglyphs", "c06-partial-notdef-mid", "names-twin", "var1-vertical", "c12-overflow",
+            "kern-static", "marks-static", "var2-diagonal", "rules-var3", "c17-special-static", "var1-nonexport"],
     "C09": ["kern-static", "kern-var1", "kern-divergent", "kern-many", "kern-intermediate", "kern-nogroups", "kern-exceptions", "kern-3x3"],
     "C10": ["marks-static", "marks-var1", "marks-propagate", "marks-var2", "marks-intermediate", "marks-propagate-static", "marks-multi", "marks-propagate"],
     "C16": ["rules-var1", "rules-var2", "rules-var2", "rules-var3"],
